@@ -6,6 +6,7 @@ package main
 import (
 	"fmt"
 	"go/token"
+	"go/types"
 	"strings"
 
 	"golang.org/x/tools/go/ssa"
@@ -345,6 +346,34 @@ func checkC17(p *Prog, r *Report) {
 	/* The pattern list fromReader matches against is sorted in fromReader or
 	is a parameter which every caller passes sorted. */
 	checkFirstMatch(p, rDet, fr)
+	/* The table the per-file converter chooses from is the converter's
+	whole filter table (a snapshot of it), not a subset picked elsewhere. */
+	filtersF := p.Field(sffPkg, "Converter", "filters")
+	for k, pa := range fr.Params {
+		if _, isMap := pa.Type().Underlying().(*types.Map); !isMap {
+			continue
+		}
+		for _, ci := range p.callersOf(fr) {
+			c := fmt.Sprintf("%s→%s:whole-filter-table", fnName(ci.Parent()), fnName(fr))
+			okk := true
+			var why []string
+			for _, x := range valueRoots(ci.Common().Args[k], func(n string) bool {
+				return strings.HasSuffix(strings.SplitN(n, "[", 2)[0], "maps.Clone")
+			}) {
+				switch {
+				case "field" == x.Kind && x.Field == filtersF:
+				default:
+					okk = false
+					why = append(why, x.String())
+				}
+			}
+			if okk {
+				rDet.OK(c, posOf(ci), "a snapshot of Converter.filters")
+			} else {
+				rDet.Bad(c, posOf(ci), "the per-file converter is handed a filter table which is not the converter's whole table (%s): the filter used is no longer the first match in pattern order over all patterns", strings.Join(why, ", "))
+			}
+		}
+	}
 
 	/* 4. Newline termination in fromReader. */
 	checkNewline(p, rNL, fr, fd)
